@@ -89,9 +89,30 @@ NeedCloser == Terminal \/ (Sock /\ (Is("openfail") \/ (Is("writefail") /\ h[Ev.w
 \* ... on connection w having been accepted
 \*     (closing the listener discards the backlog, so whatever may close it may be preceded by accepts)
 NeedConn(w) == Sock /\ (SendTurn(w) \/ (MaySend /\ cfg.oneShot) \/ AllSilent \/ NeedCloser)
+\* prophecies from the reset record: which writers' open/connect will be seen to succeed ("opens"), and
+\* whether connection w still has lines to come
+WillOpen(w)  == \E i \in 1..Len(Trace[tr].opens) : Trace[tr].opens[i] = w
+HasFuture(w) == LastOwned(w) > NSent
+\* an open that will be reported successful must take effect before the listener / the pipe's read end is closed
+OpensPending == \E w \in Writers : wst[w] = "opening" /\ WillOpen(w)
+LandTurn(w)  == WillOpen(w) /\ \A w2 \in Writers : (w2 < w /\ wst[w2] = "opening") => ~WillOpen(w2)
+\* connections worth accepting before the listener closes: those with lines to come, or any if a first
+\* connection is still needed (`started`) or the accept/close race is being explained
+Eligible(w)  == HasFuture(w) \/ ~started \/ DEV_HandlerAddedAfterWait
+AcceptTurn(w) == cfg.oneShot \/ SendTurn(w) \/ \A w2 \in pend : w2 < w => ~Eligible(w2)
 \* steps local to one handler commute with the local steps of every other handler: lowest handler first
 LocalPossible(c) == CanDeadline(c) \/ CanEof(c) \/ CanTimeout(c) \/ h[c].pc = "fin" \/ (Sock /\ CanExit(c))
 MyTurn(c) == SendTurn(c) \/ \A c2 \in Chans : c2 < c => ~(NeedHandler(c2) /\ LocalPossible(c2))
+
+\* every datagram read ends up in some later line: what is in the buffer after the read must start one
+DgramCompat(nb) ==
+  \E j \in (NSent + 1)..Len(AllLines) :
+     /\ DEV_DgramSharedBuffer => j = NSent + 1
+     /\ IF HasLF(nb) THEN AllLines[j] = SubSeq(nb, 1, FirstLF(nb) - 1) ELSE IsPrefixOf(nb, AllLines[j])
+DropHead == /\ cfg.lossy /\ Dgram /\ q[0] # <<>> /\ h[0].pc = "read" /\ (MaySend \/ Terminal)
+            /\ q' = [q EXCEPT ![0] = Tail(@)] /\ dropped' = TRUE
+            /\ UNCHANGED <<cfg, wst, nwr, inflight, lis, pend, acc, closer, started, connWg, h, buf, dl,
+                           cancelled, out, chanClosed, panic, wr, landed, rd, zeroRead>>
 
 (* environment events *)
 TOpen      == Is("open") /\ EOpen(Ev.w) /\ Consume
@@ -131,18 +152,23 @@ TEnd == /\ Is("end") /\ UNCHANGED vars /\ Consume
 TSilent ==
   /\ Silent
   /\ \/ \E w \in Writers : KOpenLand(w) /\ (\/ (Is("opened") /\ Ev.w = w)
-                                             \/ (Sock /\ NeedCloser)        \* before the listener is closed
-                                             \/ (Fifo /\ NeedHandler(0))    \* before the reader closes its end
+                                             \/ (Sock /\ NeedCloser /\ LandTurn(w))      \* before the listener is closed
+                                             \/ (Fifo /\ NeedHandler(0) /\ LandTurn(w))  \* before the reader closes its end
                                              \/ AllSilent)
      \/ \E w \in Writers : KLand(w) /\ ((Is("written") /\ (Ev.w = w \/ ~Sock)) \/ SendTurn(Chan(w)) \/ AllSilent)
-     \/ \E w \in Writers : KDrop(w) /\ Is("written") /\ Ev.w = w
-     \/ \E w \in Writers : SAccept(w) /\ NeedConn(w)
+     \* udp loss: a datagram dropped on arrival (KDrop) cannot be told from one discarded just before it would
+     \* have been read; the second form is used here, so TLC need not guess at every "written" event
+     \/ DropHead
+     \/ \E w \in Writers : SAccept(w) /\ NeedConn(w) /\ (AllSilent \/ SendTurn(w) \/ (Eligible(w) /\ AcceptTurn(w)))
      \/ SAdd /\ NeedConn(acc.cur)
-     \/ (SAcceptFail \/ SCloserStart \/ SCloserListener \/ SCloserWait) /\ NeedCloser
-     \/ SReadDgram /\ (MaySend \/ AllSilent)        \* every datagram read ends up in some later line
+     \/ (SAcceptFail \/ SCloserStart \/ SCloserWait) /\ NeedCloser
+     \/ /\ SCloserListener /\ NeedCloser
+        /\ AllSilent \/ (~OpensPending /\ \A w \in Writers : HasFuture(w) => h[w].pc # "none")
+     \/ SReadDgram /\ (AllSilent \/ (MaySend /\ DgramCompat(buf'[h'[0].key])))
      \/ SReadZeroDgram /\ (MaySend \/ Terminal \/ Is("cancel"))
      \/ \E c \in Chans :
-          \/ (SDeadline(c) \/ SReadEof(c) \/ SReadTimeout(c) \/ SCloseFd(c)) /\ NeedHandler(c) /\ MyTurn(c)
+          \/ (SDeadline(c) \/ SReadEof(c) \/ SReadTimeout(c)) /\ NeedHandler(c) /\ MyTurn(c)
+          \/ SCloseFd(c) /\ NeedHandler(c) /\ MyTurn(c) /\ (Fifo => AllSilent \/ ~OpensPending)
           \/ SSendNone(c)
           \/ SExit(c) /\ Sock /\ NeedHandler(c) /\ MyTurn(c)
           \* the next line of the trace is sent (a complete line, or the remainder at Finish)
